@@ -74,6 +74,12 @@ func FuzzFragPacket(f *testing.F) {
 		sc := stack.NewScript(1, 4096)
 		sw := fragswarm.New[stack.Addr](stack.TellOnly{Swarm: sc}, 40000)
 		defer sw.Close()
+		// whatever the packets assemble to has an owner: without a receiver a completed message would
+		// block the swarm's loop in its hand-off (by design), which is not a failure on the packet
+		go func() {
+			for sw.Receive(stack.Ctx, func(stack.Msg) {}) == nil {
+			}
+		}()
 		for _, p := range [][]byte{p1, p2, p1} {
 			if txt, _ := sc.Inject(stack.SAddr{N: 2}, p, time.Second); txt != "" {
 				t.Fatalf("fragswarm panicked on %x: %s", p, txt)
